@@ -322,6 +322,17 @@ theorem bulk_legacy_stale_witness :
     (val wl 0, val wl 1, val wl 2, val wl 3) = (3, 3, 2, 3) ∧ (val wr 0, val wr 1, val wr 2, val wr 3) = (3, 3, 3, 3) := by
   decide
 
+/-- **known defect, not repaired** (findings/C03.json `C03-bulk-namespace`, clause `bulk_namespace` of
+`Alias.checkKnown`): under a non-empty namespace the bulk form answers `ParameterNotFoundException` to a map
+that names only existing parameters — it looks the names up with the namespace and the pair form adds
+the namespace again.  Under the empty namespace the same map is linked (`bulk_links_in_sync`). -/
+theorem bulk_namespace_witness :
+    let w := run World.init [.new 0 "m.", .add 0 ⟨"m.a", 1, none⟩, .add 0 ⟨"m.b", 2, none⟩]
+    (step w (.bulk 0 [("m.b", "m.a")])).2 = .err .notfound ∧ (step w (.bulk 0 [("b", "a")])).2 = .err .notfound ∧
+    checkKnown (viewOf w) (.bulk 0 [("m.b", "m.a")]) (step w (.bulk 0 [("m.b", "m.a")])).2 = some "bulk_namespace" ∧
+    (let w0 := run World.init [.new 0 "", .add 0 ⟨"a", 1, none⟩, .add 0 ⟨"b", 2, none⟩]
+     (step w0 (.bulk 0 [("b", "a")])).2 = .ok) := by decide
+
 /-! ## `getAlias`, `getAliases`, `getFrom`: what they answer, with and without namespace
 
 The listeners know their source by its name *without* namespace (`from_`) and their target by its
